@@ -27,6 +27,12 @@ claimed = {
  "C16": ("resource pairing at every exit (fsproto)", "DESIGN §3.2, §4 C16",
    "At every exit of every operation and protocol sequence no lock, temp file or unlisted new table is still owned.",
    "global quiescence of the directory follows from per-operation pairing plus C05; not enumerated"),
+ "C07": ("decision table of the compaction rewrite loop + fsproto range partition", "DESIGN §3.3, §4 C07",
+   "Every path of one generic iteration of the rewrite loops either hands the unmodified record to AddRef/AddLog or drops it, and a drop implies (range starts at table 0 and IsDeletion) or expiry; the merged view is the raw view of exactly stack[first..last]; limits are (min first, max last); the new list keeps exactly the other tables plus the new one; a finished merge is published.",
+   "necessary conditions only: equality of the view before/after is not decided; record codec fidelity belongs to C01"),
+ "C13": ("exact decision table of the expiry filter by valuation enumeration", "DESIGN §3.3, §4 C13, Appendix A.1 DT-EXPIRY",
+   "KEEP implies not expired and DROP implies expired (or bottom tombstone) for every valuation of the seven comparison atoms consistent with the order theory; refs are never dropped by expiry; an expiring compaction publishes its result.",
+   "byte-for-byte preservation of kept entries is not decided (C01)"),
 }
 not_applicable_reason = {
  "C17": "quantifies over numeric size vectors and workload sizes (size classes, cumulative byte sums, 2*log2 N depth, N*log2 N cost); no clause is decidable from the shape of the code, and evaluating the chooser on enumerated vectors would be a runtime test (DESIGN §4 C17)",
